@@ -10,6 +10,7 @@ open Cvise.Drv
 def dispatch (line : String) : String :=
   match toks line with
   | "bin" :: args => handleBin args
+  | "level" :: args => handleLevel args
   | "binrun" :: args => handleBinRun args
   | "binrunt" :: args => handleBinRunT args
   | "binrung" :: args => handleBinRunG args
